@@ -9,19 +9,24 @@ class TopoCheck:
     TRUSTED = ["the DFS cycle oracle and the contract evaluator of checks/toposort_native.py", "the host C compiler and cffi for the 'emitted source compiles' clause"]
     ASSUMPTIONS = [
         "bounded: all source dicts over <= 3 nodes and a slice of the 4-node ones; eight real class graphs x several root orders; not a proof",
-        "deductive part: only the 'emitted exactly once' clause (no duplicates in the result of topological_sort, any graph); 'before first use', "
-        "'cycles are reported' and 'the source compiles' need edge-multiset counting / a compiler and are decided by the bounded part",
+        "deductive part: 'emitted exactly once' (no duplicates in the result of topological_sort, any graph) and 'every class they depend on, "
+        "transitively' (sort_classes closes the class list under dependencies and hands topological_sort a closed graph; a reported cycle raises); "
+        "'before first use', the cycle flag itself and 'the source compiles' need edge-multiset counting / a compiler and are decided by the bounded part",
+        "assumed in the sort_classes proof: topological_sort returns only names that are keys of its argument or listed as parents (validated "
+        "natively on all graphs <= 3 nodes); a dict comprehension over a list has exactly the names of the listed classes as keys",
         "python semantics assumed in the proof: a filtering list comprehension yields an order-preserving subsequence; dict keys are pairwise distinct",
     ]
     EXPLANATION = ("Proved on the real topological_sort for every input graph (symbolic dict/list model, four loop invariants): the result never "
-                   "lists a node twice when no cycle is reported. Bounded: run-time evaluation of the contract of topological_sort (no duplicate, complete, parents first, has_cycle iff cyclic) on the real "
+                   "lists a node twice when no cycle is reported.  Proved on the real sort_classes for every class list and dependency relation (abstract "
+                   "classes, growing list cut at a five-clause invariant): at the call of topological_sort every listed class has an entry and every "
+                   "dependency name is itself a key (closure), a reported cycle raises, every sorted name is found in class_by_name. Bounded: run-time evaluation of the contract of topological_sort (no duplicate, complete, parents first, has_cycle iff cyclic) on the real "
                    "function over an exhaustively enumerated small scope, and of sort_classes/add_kernels on real classes of every kind including "
                    "fieldless structs with dependents, _depends_on and cycles. Bounded stand-in, labelled as such.")
 
     def targets(self):
-        from . import toposort_vc
+        from . import toposort_vc, sortclasses_vc
 
-        return toposort_vc.targets()
+        return toposort_vc.targets() + sortclasses_vc.targets()
 
     def bounded(self, tier, seed, focus):
         return toposort_native.run(tier, seed)
